@@ -12,8 +12,9 @@ GInit == Init /\ hist = <<Ev("Cfg", opener, 0, 0)>>
 GStep ==
   /\ bad = "none"
   /\ \/ \E p \in Party, a \in Amts, d \in {0, 1} : Add(p, a) /\ Rec(Ev("Add", p, a, d))
-     \/ \E p \in Party, k \in {"settle", "fail"}, id \in 0..(2*MaxAdds) :
-            Resolve(p, k, id) /\ Rec(Ev("Resolve", p, id, IF k = "settle" THEN 1 ELSE 0))
+     \* y: 1 = update_fulfill_htlc, 0 = update_fail_htlc, 2 = update_fail_malformed_htlc (a fail for the model)
+     \/ \E p \in Party, y \in {0, 1, 2}, id \in 0..(2*MaxAdds) :
+            Resolve(p, IF y = 1 THEN "settle" ELSE "fail", id) /\ Rec(Ev("Resolve", p, id, y))
      \/ \E p \in Party :
           \/ Sign(p) /\ Rec(Ev("Sign", p, 0, 0))
           \/ Revoke(p) /\ Rec(Ev("Revoke", p, 0, 0))
